@@ -16,10 +16,13 @@
   over the POSIX model of `Model/LocalFS.lean` creates exactly the tree, directory mtimes and the
   symbolic links' own mtimes included (`symlink_mtime_set_without_following`: the no-follow call).
 
-  Modelled, not verified (exercised on disk by the harness as root: lstat/readlink/xattr/content
-  snapshots, both digests, caidx+store, tar-stream input, gnu-tar/mtree output): `filepath.Walk`
-  order and the reading side of `LocalFS`, `archive/tar`, chunking of the archive (C02) and chunk
-  transport (C03).  The file-system model carries owner, the twelve mode bits and the extended
+  The reading side of `LocalFS` (`filepath.Walk` with the callback of `startSerializer`, `LocalFS.Next`)
+  is modelled over the same file system (`Model/LocalFSRead.lean`): `walk_is_sorted_preorder`,
+  `read_of_written_tree`, `fs_roundtrip` (FS → archive → FS as one theorem), `tar_twice_identical`.
+
+  Exercised on disk by the harness as root, not modelled (lstat/readlink/xattr/content snapshots, both
+  digests, caidx+store, tar-stream input, gnu-tar/mtree output): `archive/tar`, chunking of the archive
+  (C02) and chunk transport (C03).  The file-system model carries owner, the twelve mode bits and the extended
   attributes of every object (`chown` clearing set-id bits of non-directories, `user.*` attributes
   refused on links and device nodes); the creation mode under the process's umask is abstract (`none`).
 -/
@@ -27,6 +30,7 @@ import Desync.Proofs.TarTreeRoundTrip
 import Desync.Proofs.ModeProofs
 import Desync.Proofs.LocalFSRoundTrip
 import Desync.Proofs.LocalFSAttrOrder
+import Desync.Proofs.LocalFSReadExample
 
 namespace Desync.C05
 open Desync
@@ -173,5 +177,129 @@ theorem untar_on_disk_is_untar_then_apply (o : LFS.Opts) (root : List LFS.Name) 
     (nodes : List Node) (h : untar b = .ok nodes) :
     LFS.untarFS o root fs b = LFS.finishAll (LFS.applyAll o root { fs := fs } nodes) :=
   LFS.untarFS_of_untar o root fs b nodes h
+
+/-! ### the file-system level, both directions: FS → `LocalFS.Next` → `tar()` → bytes → `UnTar` → `LocalFS` → FS
+    (`Model/LocalFSRead.lean`: `filepath.Walk` with the callback of `startSerializer`, and `LocalFS.Next`) -/
+
+/-- **The record stream of a directory tree on disk is a sorted pre-order walk.**  For every valid file system
+    (`LFS.FSValid`: directory entries are file names; nodes made by mknod are devices, fifos or sockets), every
+    directory `root` in it reached through real directories, every option (`NoTime`; `skip`: the mount points left out
+    under --one-file-system): reading succeeds — no error entry, enough fuel — and the records are the pre-order
+    traversal `t.records` of a tree `t` with `t.Walked`: the children of every directory in strictly increasing
+    byte-wise name order, every record's `parent` = `path.Dir` of its `path`, a child's `path` = its directory's path
+    joined with its name, only real directories have children (a symbolic link to a directory is a leaf); no record's
+    path lies outside the root; every record of a kind `tar()` archives has the reader's shape (`LFS.Shaped`), and under
+    `NoTime` every time is 0. -/
+theorem walk_is_sorted_preorder (env : LFS.Env) (nt : Bool) (skip : LFS.RPath → Bool) (fs : LFS.FS)
+    (root : List LFS.Name) (hv : LFS.FSValid fs) (hr : LFS.SrcRoot fs root) :
+    ∃ t : Tree, LFS.readTree env nt skip fs (LFS.absStr root) = some (.ok t.records) ∧
+      t.Walked (LFS.absStr root) ∧ ∀ f ∈ t.records, LFS.RecOK nt root f :=
+  LFS.readTree_walked env nt skip fs root hv hr
+
+/-- **Nothing is left out**: every object below the root that is reached through real directories has its record -/
+theorem reader_leaves_nothing_out (env : LFS.Env) (nt : Bool) (fs : LFS.FS) (root : List LFS.Name)
+    (hv : LFS.FSValid fs) (hr : LFS.SrcRoot fs root) (t : Tree)
+    (ht : LFS.readTree env nt LFS.noSkip fs (LFS.absStr root) = some (.ok t.records))
+    (p : LFS.RPath) (hp : root <+: p) (hthere : (fs.get p).isSome = true) (hd : LFS.AllDirs fs p.dropLast) :
+    ∃ f ∈ t.records, f.path = LFS.absStr p :=
+  LFS.readTree_complete env nt fs root hv hr t ht p hp hthere hd
+
+/-- **Reading back what was unpacked.**  For every well-formed tree of records (the hypotheses of
+    `unpacking_creates_the_tree`, owner and permissions restored) whose sibling names are sorted (`Tree.Sorted`) and whose
+    records have the reader's shape (`LFS.Shaped`) and a time that survives (`LFS.TimeOK`: not 0, or `NoTime`): `UnTar`
+    of the tree's archive onto a fresh directory succeeds, and reading that directory with `LocalFS` yields exactly the
+    tree's records — kind, permission, set-id and sticky bits, owner, mtime (a symbolic link's own too), link target,
+    extended attributes, device numbers, size and content, siblings in sorted order — carrying the paths of the place
+    they were unpacked to (`Tree.rootedAt`). -/
+theorem read_of_written_tree (env : LFS.Env) (nt : Bool) (root : List LFS.Name) (fs : LFS.FS) (r : FileRec)
+    (cs : List Tree) (b : Bytes)
+    (hroot : LFS.RootOK fs root) (hshort : LFS.Short root) (hfresh : ∀ p, root <+: p → fs.get p = none)
+    (hrk : r.kind = .dir) (hrx : XattrsOK r.xattrs) (hsize : 16 + (cs.length + 1) * 24 < 2 ^ 64)
+    (hcs : Tree.WFList r.path [r.path] cs) (hnames : (Tree.dir r cs).Names)
+    (hfit : ∀ f ∈ (Tree.dir r cs).records, LFS.XattrsFit LFS.restoreAll f)
+    (hb : tarStream (Tree.dir r cs).records = some b)
+    (hsorted : (Tree.dir r cs).Sorted)
+    (hshaped : ∀ f ∈ (Tree.dir r cs).records, LFS.Shaped f ∧ LFS.TimeOK nt f) :
+    (LFS.untarFS LFS.restoreAll root fs b).2 = true ∧
+    LFS.readTree env nt LFS.noSkip (LFS.untarFS LFS.restoreAll root fs b).1 (LFS.absStr root) =
+      some (.ok ((Tree.dir r cs).rootedAt root).records) :=
+  LFS.read_of_written_tree env nt root fs r cs b hroot hshort hfresh hrk hrx hsize hcs hnames hfit hb hsorted hshaped
+
+/-- **FS₀ → archive → FS₁, one theorem.**  For every valid file system `fs₀`, every directory `root₀` in it whose record
+    stream is representable (`LFS.Representable`: no fifo or socket — `tar()` skips those —, xattr names without NUL and
+    in range, no `user.*` attribute on a link or device node, no time of exactly 0 unless `NoTime`, sizes in range; the
+    device-number range and the mode bits need no hypothesis: what `Next` reads always fits), and every destination
+    `root₁` that is fresh in `fs₁` below real directories: `Tar` over `LocalFS` succeeds (`b`), `UnTar` of `b` onto `LocalFS`
+    at `root₁` succeeds, reading the copy gives the records of the original re-rooted at `root₁`, the copy's archive is
+    `b` again, and at a path of the same name the two record streams are equal. -/
+theorem fs_roundtrip (env : LFS.Env) (nt : Bool) (fs₀ fs₁ : LFS.FS) (root₀ root₁ : List LFS.Name)
+    (hv : LFS.FSValid fs₀) (hr₀ : LFS.SrcRoot fs₀ root₀) (hd : LFS.IsDir (fs₀.get root₀))
+    (hrep : ∀ recs, LFS.readTree env nt LFS.noSkip fs₀ (LFS.absStr root₀) = some (.ok recs) → LFS.Representable nt recs)
+    (hroot₁ : LFS.RootOK fs₁ root₁) (hshort₁ : LFS.Short root₁) (hfresh : ∀ p, root₁ <+: p → fs₁.get p = none) :
+    ∃ (t : Tree) (b : Bytes),
+      LFS.readTree env nt LFS.noSkip fs₀ (LFS.absStr root₀) = some (.ok t.records) ∧ t.Walked (LFS.absStr root₀) ∧
+      tarStream t.records = some b ∧
+      (LFS.untarFS LFS.restoreAll root₁ fs₁ b).2 = true ∧
+      LFS.readTree env nt LFS.noSkip (LFS.untarFS LFS.restoreAll root₁ fs₁ b).1 (LFS.absStr root₁) =
+        some (.ok (t.rootedAt root₁).records) ∧
+      tarStream (t.rootedAt root₁).records = some b ∧
+      (root₁ = root₀ → LFS.readTree env nt LFS.noSkip (LFS.untarFS LFS.restoreAll root₁ fs₁ b).1 (LFS.absStr root₁) =
+        LFS.readTree env nt LFS.noSkip fs₀ (LFS.absStr root₀)) :=
+  LFS.fs_roundtrip env nt fs₀ fs₁ root₀ root₁ hv hr₀ hd hrep hroot₁ hshort₁ hfresh
+
+/-- **Packing the same tree twice yields identical archive bytes** (the disk source): what `Tar` writes is a function of
+    what lies below the root — two file systems that agree there (whatever order they list their directory entries in,
+    whatever else they hold) give the same record stream, hence the same archive or the same failure -/
+theorem tar_twice_identical (env : LFS.Env) (nt : Bool) (skip : LFS.RPath → Bool) (fs fs' : LFS.FS) (root : List LFS.Name)
+    (hv : LFS.FSValid fs) (hr : LFS.SrcRoot fs root) (hr' : LFS.SrcRoot fs' root)
+    (h : ∀ p, root <+: p → fs.get p = fs'.get p) :
+    LFS.readTree env nt skip fs (LFS.absStr root) = LFS.readTree env nt skip fs' (LFS.absStr root) ∧
+    (LFS.readTree env nt skip fs (LFS.absStr root)).map (fun r => r.toOption.bind tarStream) =
+      (LFS.readTree env nt skip fs' (LFS.absStr root)).map (fun r => r.toOption.bind tarStream) :=
+  ⟨LFS.readTree_ext env nt skip fs fs' root hv hr hr' h, LFS.tar_of_disk_deterministic env nt skip fs fs' root hv hr hr' h⟩
+
+/-! non-vacuity: `LFS.ReadExample.fs0` holds /srv/src with a set-group-ID directory carrying an xattr, a set-user-ID file
+    with two xattrs, a symbolic link to a directory with its own time stamp, a character device and an empty directory;
+    all hypotheses of `fs_roundtrip` hold of it and of the destination /srv/dst on another file system -/
+example : LFS.FSValid LFS.ReadExample.fs0 ∧ LFS.SrcRoot LFS.ReadExample.fs0 LFS.ReadExample.root0 ∧
+    LFS.IsDir (LFS.ReadExample.fs0.get LFS.ReadExample.root0) ∧
+    (∀ nt recs, LFS.readTree LFS.ReadExample.env0 nt LFS.noSkip LFS.ReadExample.fs0 (LFS.absStr LFS.ReadExample.root0)
+      = some (.ok recs) → LFS.Representable nt recs) ∧
+    LFS.RootOK LFS.ReadExample.fs1 LFS.ReadExample.root1 ∧ LFS.Short LFS.ReadExample.root1 ∧
+    (∀ p, LFS.ReadExample.root1 <+: p → LFS.ReadExample.fs1.get p = none) :=
+  ⟨LFS.ReadExample.valid0, LFS.ReadExample.srcRoot0, LFS.ReadExample.isDir0,
+   fun nt => LFS.representable_of_check (LFS.ReadExample.representable0 nt),
+   LFS.ReadExample.rootOK1, LFS.ReadExample.short1, LFS.ReadExample.fresh1⟩
+
+/-- the order in which that tree is read: "src", then "A" (upper case sorts first), "c", "sub" and, right after "sub",
+    its children "f" and "l" — the link to a directory is a leaf; kinds and the set-id bits as stored -/
+example :
+    (match LFS.readTree LFS.ReadExample.env0 false LFS.noSkip LFS.ReadExample.fs0 (LFS.absStr LFS.ReadExample.root0) with
+     | some (.ok recs) => recs.map fun f => (f.base, f.kind, f.mode % 4096, f.major, f.minor)
+     | _ => []) =
+    [([115, 114, 99], .dir, 0o755, 0, 0), ([65], .dir, 0o1777, 0, 0), ([99], .device, 0o660, 1, 3),
+      ([115, 117, 98], .dir, 0o2775, 0, 0), ([102], .reg, 0o4755, 0, 0), ([108], .symlink, 0o777, 0, 0)] := by decide
+
+/-! ### the source the reading-side model was written from (regenerated facts) -/
+
+/-- `LocalFS.Next`: the `File` literal field by field, the `NoTime` override, the calls that read xattrs (every entry, links
+    included, on the walk's path), link target (under a `ModeSymlink` test) and content (under `IsRegular`) -/
+theorem gen_lfsread_next :
+    Gen.site_lfsread_file_literal_found = true ∧ Gen.lfsNextFile = LFS.ReadFacts.fileLiteral ∧
+    Gen.site_lfsread_notime_found = true ∧ Gen.lfsNextNoTime = LFS.ReadFacts.noTime ∧
+    Gen.site_lfsread_calls_found = true ∧ Gen.lfsNextCalls = LFS.ReadFacts.calls := by decide
+
+/-- the device numbers `Next` splits out of `st_rdev` are `Mode.rdevMajor` / `Mode.rdevMinor` -/
+theorem gen_lfsread_dev :
+    Gen.site_lfsread_major_found = true ∧ Gen.site_lfsread_minor_found = true ∧
+    ∀ r, Gen.lfsNextMajor r = Mode.rdevMajor r ∧ Gen.lfsNextMinor r = Mode.rdevMinor r :=
+  ⟨by decide, by decide, fun _ => ⟨rfl, rfl⟩⟩
+
+/-- `startSerializer`: a sorted walk from `fs.Root` whose callback sends every entry it does not skip, skips (before
+    sending) only directories on another device under --one-file-system, and otherwise returns nil; `tar()` reads `Size`
+    of regular files only -/
+theorem gen_lfsread_walk :
+    Gen.site_lfsread_walk_found = true ∧ Gen.lfsWalkCallback = LFS.ReadFacts.walkCallback ∧
+    Gen.site_lfsread_size_use_found = true ∧ Gen.tarSizeUses = LFS.ReadFacts.sizeUses := by decide
 
 end Desync.C05
